@@ -239,6 +239,41 @@ func roland(part, parts int) {
 			judge(v, (n <= 8 || n == 128 || n == 512) && pat < 3)
 		}
 	}
+	// long payloads with dense contents (sums that pass 2^15, 2^16, 2^20 in
+	// any accumulator an implementation may choose): lengths around every
+	// power of two up to 2^20 and a few thousand others x five constant fills
+	// and the varied pattern
+	{
+		var lens []int
+		for sh := 9; sh <= 20; sh++ {
+			for d := -2; d <= 2; d++ {
+				lens = append(lens, 1<<sh+d)
+			}
+		}
+		lens = append(lens, 516, 517, 1032, 2063, 2064, 2065, 2500, 3000, 4127, 4128, 4129, 5000, 8256, 10000, 20000, 33000, 70000, 100000)
+		if ctx.Thorough() {
+			for n := 513; n <= 9000; n++ {
+				lens = append(lens, n)
+			}
+		}
+		k := 0
+		for _, n := range lens {
+			for _, fill := range []int{0x7F, 0x7E, 0x60, 0x40, 0x01, -1} {
+				k++
+				if k%parts != part {
+					continue
+				}
+				v := base(false)
+				if fill < 0 {
+					v.SendingData = pattern(n, 2)
+				} else {
+					v.SendingData = bytes.Repeat([]byte{byte(fill)}, n)
+				}
+				judge(v, false)
+				ctx.Add("long_dense_payloads", 1)
+			}
+		}
+	}
 	for f := 0; f < 3; f++ {
 		for x := part; x < 128; x += parts {
 			v := base(true)
